@@ -129,6 +129,11 @@ pub enum SshEv {
 pub struct SshH {
     tx: mpsc::UnboundedSender<SshEv>,
     password: String,
+    /// do not answer the subsystem request when it arrives: the script confirms it later
+    /// (RFC 4254 does not order the reply to a channel request relative to channel data)
+    defer_success: bool,
+    /// drop the connection when the password request arrives, without answering it
+    auth_hangup: bool,
 }
 
 #[async_trait]
@@ -138,6 +143,11 @@ impl russh::server::Handler for SshH {
     async fn auth_password(self, user: &str, password: &str) -> Result<(Self, Auth), Self::Error> {
         let accepted = password == self.password;
         let _ = self.tx.send(SshEv::Auth { user: user.into(), password: password.into(), accepted });
+        if self.auth_hangup {
+            // neither USERAUTH_FAILURE nor SUCCESS: the server just goes away (a connection
+            // rate-limit, a crashing sshd)
+            return Err(russh::Error::Disconnect);
+        }
         let a = if accepted { Auth::Accept } else { Auth::Reject { proceed_with_methods: None } };
         Ok((self, a))
     }
@@ -148,7 +158,9 @@ impl russh::server::Handler for SshH {
 
     async fn subsystem_request(self, channel: ChannelId, name: &str, mut session: SshSession) -> Result<(Self, SshSession), Self::Error> {
         if name == "netconf" {
-            session.channel_success(channel);
+            if !self.defer_success {
+                session.channel_success(channel);
+            }
             let _ = self.tx.send(SshEv::Subsystem { handle: session.handle(), channel });
         } else {
             session.channel_failure(channel);
@@ -204,6 +216,14 @@ impl Conn {
                 s.write_all(bytes).await?;
                 s.flush().await
             }
+        }
+    }
+
+    /// SSH: answer the (deferred) subsystem request now - SSH_MSG_CHANNEL_SUCCESS between two
+    /// channel-data packets
+    pub async fn confirm_subsystem(&mut self) {
+        if let Conn::Ssh { handle, channel, .. } = self {
+            let _ = handle.channel_success(*channel).await;
         }
     }
 
@@ -374,6 +394,10 @@ pub struct Listener {
     tcp: Option<TcpListener>,
     unix: Option<UnixListener>,
     pub ssh_password: String,
+    /// SSH: leave the subsystem request unanswered until `Conn::confirm_subsystem`
+    pub ssh_defer_success: bool,
+    /// SSH: hang up on the password request instead of answering it
+    pub ssh_auth_hangup: bool,
 }
 
 impl Listener {
@@ -382,14 +406,14 @@ impl Listener {
             Tr::Tls | Tr::Ssh => {
                 let l = TcpListener::bind("127.0.0.1:0").await?;
                 let port = l.local_addr()?.port();
-                Ok(Self { tr, endpoint: Endpoint::Tcp(port), tcp: Some(l), unix: None, ssh_password: "correct horse battery staple".into() })
+                Ok(Self { tr, endpoint: Endpoint::Tcp(port), tcp: Some(l), unix: None, ssh_password: "correct horse battery staple".into(), ssh_defer_success: false, ssh_auth_hangup: false })
             }
             Tr::Cli => {
                 let dir = std::env::temp_dir().join(format!("vh-cli-{}-{}", std::process::id(), crate::util::fnv(format!("{:?}", std::time::Instant::now()).as_bytes())));
                 std::fs::create_dir_all(&dir)?;
                 let path = dir.join("s");
                 let l = UnixListener::bind(&path)?;
-                Ok(Self { tr, endpoint: Endpoint::Unix(path), tcp: None, unix: Some(l), ssh_password: String::new() })
+                Ok(Self { tr, endpoint: Endpoint::Unix(path), tcp: None, unix: Some(l), ssh_password: String::new(), ssh_defer_success: false, ssh_auth_hangup: false })
             }
         }
     }
@@ -410,7 +434,7 @@ impl Listener {
                 use std::os::fd::AsRawFd;
                 let raw = tcp.as_raw_fd();
                 let (tx, mut rx) = mpsc::unbounded_channel();
-                let h = SshH { tx, password: self.ssh_password.clone() };
+                let h = SshH { tx, password: self.ssh_password.clone(), defer_success: self.ssh_defer_success, auth_hangup: self.ssh_auth_hangup };
                 let running = russh::server::run_stream(ssh_config(), tcp, h)
                     .await
                     .map_err(|e| std::io::Error::new(std::io::ErrorKind::Other, format!("{e:?}")))?;
